@@ -24,8 +24,9 @@ Crypt(n) ==
 SetToSeq(S) == CHOOSE q \in [1..Cardinality(S) -> S] : \A i, j \in 1..Cardinality(S) : i # j => q[i] # q[j]
 Rec(n) == LET t == RE(RecTypes) IN
           [op |-> "Rec", t |-> t, present |-> SetToSeq(RE(Presents(t))), wrapper |-> RE({TRUE, TRUE, FALSE}), withState |-> RE(BOOLEAN),
-           rot |-> RE({FALSE, FALSE, TRUE})]      \* the wrapper's encrypting key is rotated between store and load (old values still open)
-Flow(n) == [op |-> "Flow", name |-> RE({"authorize", "token", "rotate", "dial", "dialtoken"}), withState |-> RE(BOOLEAN)]
+           rot |-> RE({FALSE, FALSE, TRUE}),
+           longNonce |-> RE(BOOLEAN)]             \* node credentials: the nonce is a decoded activation token (not 32 bytes)      \* the wrapper's encrypting key is rotated between store and load (old values still open)
+Flow(n) == [op |-> "Flow", name |-> RE({"authorize", "token", "rotate", "rotateNamed", "dial", "dialtoken"}), withState |-> RE(BOOLEAN)]
 Init == hist = <<>> /\ done = FALSE
 Step == /\ Len(hist) < Depth
         /\ \E c \in {RE({"Crypt", "Crypt", "Crypt", "Rec", "Flow"})} :
